@@ -1,356 +1,1320 @@
-"""C13 -- bulk-data writers <-> readers (partial claim)."""
+"""C13 -- bulk-data writers <-> readers (partial claim).
+
+Every rule is decided on *values* computed by the small symbolic interpreter of `c13_sem.py` (string templates, linear integer forms,
+path facts), not on the spelling of the source: a format assembled through variables, `+`, `*`, `.format`, f-strings or module constants
+is the same template; a guard is recognised by what the tests passed on the way imply at the point of use (early `raise` / `return`,
+inverted conditions, `not in`, `elif` chains are all the same guard); locals may be renamed, temporaries introduced or removed, private
+helpers of the module extracted or inlined.
+"""
 from __future__ import annotations
 
 import ast
-import re
 
 from .core import AnchorError, Unsupported
-from .e1_srcmodel import dotted, walk_no_nested, parent, ancestors, enclosing_stmt, utext
+from .e1_srcmodel import dotted, walk_no_nested, parent
+from . import c13_sem as M
+from .c13_sem import Lin, S, lin, show
 
 BULK = "pyyeti/nastran/bulk.py"
 WRITER = "pyyeti/writer.py"
-
-FSPEC = re.compile(r"\{[^{}:]*:(?P<flags>[<>^]?)(?P<alt>#?)(?P<w>\d+)(?:\.(?P<p>\d+))?(?P<t>[eEfFdsgG]?)\}")
-
-
-def max_width(W, P, t):
-    """widest rendering of a finite double under {:W.Pt}; None = unbounded"""
-    if t in ("e", "E"):
-        # [-]d.PPP E [+-] ddd   (three-digit exponents exist below 1e-99 and above 1e+99)
-        return max(W, 1 + 1 + 1 + P + 1 + 1 + 3)
-    if t in ("f", "F"):
-        return None
-    return W
+YTOOLS = "pyyeti/ytools.py"
 
 
-def f_limit(W, P):
-    """`{:W.Pf}` stays within W characters iff -10^(W-P-2) < x < 10^(W-P-1) (roughly)"""
-    return W - P - 1, W - P - 2
+# ====================================================================================================================== helpers
+def helpers_of(m):
+    """private module-level functions: followed (evaluated on the argument values) when a writer calls them"""
+    return {q: f for q, f in m.funcs.items() if "." not in q and "#" not in q and q.startswith("_") and not q.startswith("__")}
 
 
-def _specs_in_string(s):
-    return [(m.group(0), int(m.group("w")), int(m.group("p")) if m.group("p") else None, m.group("t")) for m in FSPEC.finditer(s)]
+def engine(ctx, rel, qual, **kw):
+    m = ctx.src.mod(rel)
+    fn = ctx.src.func(rel, qual)
+    E = M.Engine(m, fn, follow=helpers_of(m), **kw)
+    E.run()
+    return E
 
 
-def _fstring_specs(js):
+def is_write(e):
+    return e.kind == "call" and e.d["attr"] == "write" and len(e.d["args"]) == 1
+
+
+def is_vecwrite(e):
+    return e.kind == "call" and (e.d["attr"] == "vecwrite" or (e.d["name"] or "").split(".")[-1] == "vecwrite")
+
+
+def vecwrite_parts(e):
+    """(file, template, data arguments) of a vecwrite call, positional or by keyword"""
+    a = list(e.d["args"])
+    kw = e.d["kws"]
+    tmpl = a[1] if len(a) > 1 else kw.get("string")
+    return (a[0] if a else kw.get("f")), tmpl, a[2:]
+
+
+def the_atom(v):
+    """the single atom of a linear form `1 * atom`, else None"""
+    if isinstance(v, Lin) and len(v.t) == 1 and v.c == 0:
+        (at, c), = v.t.items()
+        if c == 1:
+            return at
+    return None
+
+
+def flen_atoms(facts, name):
+    """the atoms len(<name>.format(k args)) the facts speak about"""
     out = []
-    for v in js.values:
-        if isinstance(v, ast.FormattedValue) and v.format_spec is not None and all(isinstance(x, ast.Constant) for x in v.format_spec.values):
-            txt = "".join(x.value for x in v.format_spec.values)
-            m = re.match(r"^[<>^]?#?(\d+)(?:\.(\d+))?([eEfFdsgG]?)$", txt)
-            if m:
-                out.append((txt, int(m.group(1)), int(m.group(2)) if m.group(2) else None, m.group(3), v))
+
+    def walk(v):
+        if isinstance(v, Lin):
+            for at in v.t:
+                if isinstance(at, tuple) and at and at[0] == "flen" and at[1] == ("sym", name) and at not in out:
+                    out.append(at)
+                walk(at)
+        elif isinstance(v, tuple):
+            for x in v:
+                if isinstance(x, (Lin, tuple)):
+                    walk(x)
+    for t, _ in facts:
+        walk(t)
     return out
 
 
-def r1_templates(ctx):
+def line_layout(parts, subw):
+    """one physical line (list of S parts, no newline) -> dict(head, fields, widths, stray) ; `subw`: width of an opaque template fragment"""
+    items = M.template_items(S(parts))
+    head = None
+    widths = []
+    stray = ""
+    ok = True
+    for it in items:
+        if it[0] == "text":
+            if head is None and not widths:
+                head = it[1][:8]
+                stray += it[1][8:]
+            else:
+                stray += it[1]
+        elif it[0] == "field":
+            if it[1] is None or it[1].width is None:
+                ok = False
+                widths.append(None)
+            else:
+                widths.append(it[1].width)
+        elif it[0] == "sub":
+            widths.append(subw)
+        elif it[0] == "done":
+            x = it[1]
+            if x[0] == "fv":
+                sp = M.parse_spec(x[1]) if x[1] is not None else None
+                widths.append(sp.width if sp else None)
+                if head is None and len(widths) == 1:
+                    pass
+            else:
+                widths.append(subw)
+        else:
+            ok = False
+    return {"head": head, "fields": len(widths), "widths": widths, "stray": stray, "ok": ok}
+
+
+# ====================================================================================================================== R1
+class _Once:
+    """one obligation per distinct key"""
+
+    def __init__(self, ctx):
+        self.ctx = ctx
+        self.seen = set()
+
+    def check(self, ok, inst, where, detail=None, key=None, nontrivial=True):
+        k = key or inst
+        if k in self.seen:
+            return ok
+        self.seen.add(k)
+        return self.ctx.check(ok, inst, where, detail, key=key, nontrivial=nontrivial)
+
+
+def _lazy_state(E, fn):
+    """flow-insensitive environment: a local bound exactly once (plain assignment, not in a loop header) stands for its defining expression"""
+    defs = {}
+    for n in walk_no_nested(fn):
+        if isinstance(n, ast.Assign) and len(n.targets) == 1 and isinstance(n.targets[0], ast.Name):
+            defs.setdefault(n.targets[0].id, []).append(n.value)
+        elif isinstance(n, ast.Name) and isinstance(n.ctx, ast.Store):
+            p_ = parent(n)
+            if not (isinstance(p_, ast.Assign) and len(p_.targets) == 1 and p_.targets[0] is n):
+                defs.setdefault(n.id, []).extend([None, None])
+    st = M.State(E.env0)
+    busy = set()
+
+    class Env(dict):
+        def _resolve(self, k):
+            if dict.__contains__(self, k):
+                return dict.__getitem__(self, k)
+            d = defs.get(k)
+            if d and len(d) == 1 and d[0] is not None and k not in busy:
+                busy.add(k)
+                try:
+                    v = E.ev(d[0], st)
+                except Unsupported:
+                    v = ("sym", k)
+                finally:
+                    busy.discard(k)
+                return v
+            return None
+
+        def __contains__(self, k):
+            return self._resolve(k) is not None
+
+        def __getitem__(self, k):
+            v = self._resolve(k)
+            if v is None:
+                raise KeyError(k)
+            return v
+
+        def get(self, k, default=None):
+            v = self._resolve(k)
+            return default if v is None else v
+
+    env = Env()
+    env.update(E.env0)
+    st.env = env
+    return st
+
+
+def _string_roots(fn):
+    """maximal string-building expressions of a function (docstrings excluded)"""
+    roots = {}
+    for n in walk_no_nested(fn):
+        cand = None
+        if isinstance(n, ast.JoinedStr):
+            cand = n
+        elif isinstance(n, ast.Constant) and isinstance(n.value, str) and ("{" in n.value or "%" in n.value):
+            p_ = parent(n)
+            if isinstance(p_, ast.Expr) or isinstance(p_, ast.arguments):
+                continue
+            cand = n
+        elif isinstance(n, ast.Call) and isinstance(n.func, ast.Name) and n.func.id == "format" and len(n.args) == 2:
+            cand = n
+        elif isinstance(n, ast.Name) and isinstance(n.ctx, ast.Load):
+            cand = n if getattr(n, "_c13_modconst", False) else None
+        if cand is None:
+            continue
+        top = cand
+        while True:
+            p_ = parent(top)
+            if isinstance(p_, ast.BinOp) and isinstance(p_.op, (ast.Add, ast.Mult, ast.Mod)):
+                top = p_
+            elif isinstance(p_, (ast.JoinedStr, ast.FormattedValue)):
+                top = p_
+            elif isinstance(p_, ast.Attribute) and p_.attr == "format" and isinstance(parent(p_), ast.Call) and parent(p_).func is p_:
+                top = parent(p_)
+            else:
+                break
+        roots[id(top)] = top
+    return list(roots.values())
+
+
+def _float_specs(v, out, node):
+    """(Spec, role or None, kind) of every floating-point field in a string value"""
+    if not isinstance(v, S):
+        return
+    for x in v.p:
+        if x[0] == "fv":
+            sp = M.parse_spec(x[1]) if x[1] is not None else None
+            if sp is not None and sp.type in ("e", "E", "f", "F", "g", "G") and sp.width is not None:
+                out.append((sp, x[3] if len(x) > 3 else None, x[2], node))
+            if isinstance(x[2], S):
+                _float_specs(x[2], out, node)
+        elif x[0] == "lit":
+            for it in M.template_items(S((x,))):
+                if it[0] == "field" and it[1] is not None and it[1].type in ("e", "E", "f", "F", "g", "G") and it[1].width is not None:
+                    out.append((it[1], None, None, node))
+        elif x[0] == "rep":
+            _float_specs(x[1], out, node)
+
+
+def _effective_default(E, fn, pname):
+    """value a parameter has when the caller does not pass it: the signature default, or `if p is None: p = ...` at the top of the body"""
+    a = fn.args
+    pos = a.posonlyargs + a.args
+    dv = None
+    for x, d in zip(pos[len(pos) - len(a.defaults):], a.defaults):
+        if x.arg == pname:
+            dv = d
+    for x, d in zip(a.kwonlyargs, a.kw_defaults):
+        if x.arg == pname and d is not None:
+            dv = d
+    if dv is None:
+        return None, None
+    if isinstance(dv, ast.Constant) and dv.value is None:
+        for st in fn.body:
+            if isinstance(st, ast.If) and isinstance(st.test, ast.Compare) and len(st.test.ops) == 1 and isinstance(st.test.ops[0], ast.Is) \
+                    and isinstance(st.test.left, ast.Name) and st.test.left.id == pname and isinstance(st.test.comparators[0], ast.Constant) \
+                    and st.test.comparators[0].value is None:
+                for s2 in st.body:
+                    if isinstance(s2, ast.Assign) and len(s2.targets) == 1 and isinstance(s2.targets[0], ast.Name) and s2.targets[0].id == pname:
+                        return E.ev(s2.value, M.State()), s2
+        return None, None
+    return E.ev(dv, M.State()), dv
+
+
+def _reached_helpers(m, fn, done):
+    """private non-writer helpers of the module a writer calls (transitively): their formats belong to the writer"""
+    out = []
+    hs = helpers_of(m)
+    stack = [fn]
+    while stack:
+        f = stack.pop()
+        for n in ast.walk(f):
+            if isinstance(n, ast.Call) and isinstance(n.func, ast.Name) and n.func.id in hs and not n.func.id.startswith("_wt"):
+                h = hs[n.func.id]
+                if id(h) not in done:
+                    done.add(id(h))
+                    out.append(h)
+                    stack.append(h)
+    return out
+
+
+def _width_obligations(ctx, once):
     m = ctx.src.mod(BULK)
-    # ---- hard-wired floating-point specs in writer functions, and defaults of `form` parameters
     n = 0
-    seen = set()
-
-    class _Once:
-        """one obligation per distinct (function, spec): a default like "{:16.9E}{:16.9E}" repeats its spec"""
-        def check(self, ok, inst, where, detail=None, key=None):
-            if key in seen:
-                return ok
-            seen.add(key)
-            return ctx.check(ok, inst, where, detail, key=key)
-
-        def fail(self, inst, where, detail=None, key=None):
-            if key in seen:
-                return
-            seen.add(key)
-            ctx.fail(inst, where, detail, key=key)
-
-    once = _Once()
+    modconsts = {st.targets[0].id for st in m.tree.body if isinstance(st, ast.Assign) and len(st.targets) == 1 and isinstance(st.targets[0], ast.Name)}
     for q, fn in sorted(m.funcs.items()):
+        last = q.split(".")[-1]
         if not (q.startswith("wt") or q.startswith("_wt")):
             continue
-        # default format parameters
-        defaults = fn.args.defaults
-        names = [a.arg for a in fn.args.args][len(fn.args.args) - len(defaults):]
-        for nm, dv in zip(names, defaults):
-            if nm == "form" and isinstance(dv, ast.Constant) and isinstance(dv.value, str):
-                for txt, W, P, t in _specs_in_string(dv.value):
-                    if t in ("e", "E", "f", "F") and P is not None:
-                        n += 1
-                        mw = max_width(W, P, t)
-                        if mw is None:
-                            hi, lo = f_limit(W, P)
-                            once.fail(f"{q}: default form `{txt}` fits its {W}-character field for every finite value", fn,
-                                     f"fixed notation grows with magnitude: {W + 1} characters for any value >= 1e{hi} or <= -1e{lo}; the reader then "
-                                     "loses the following field (silent corruption)", key=f"C13-R1|{q}|default form {txt}")
-                        else:
-                            ok = mw <= W
-                            once.check(ok, f"{q}: default form `{txt}` fits its {W}-character field for every finite value", fn,
-                                      None if ok else f"a negative value with a three-digit exponent renders {mw} characters (e.g. -1e-100)",
-                                      key=f"C13-R1|{q}|default form {txt}")
-        for node in walk_no_nested(fn):
-            if isinstance(node, ast.JoinedStr):
-                for txt, W, P, t, fv in _fstring_specs(node):
-                    if t in ("e", "E", "f", "F") and P is not None:
-                        n += 1
-                        mw = max_width(W, P, t)
-                        ok = mw is not None and mw <= W
-                        once.check(ok, f"{q}: hard-wired spec `{{{ast.unparse(fv.value)}:{txt}}}` fits its {W}-character field for every finite value", node,
-                                  None if ok else (f"a negative value with a three-digit exponent renders {mw} characters" if mw else "fixed notation is unbounded"),
-                                  key=f"C13-R1|{q}|spec {ast.unparse(fv.value)}:{txt}")
-            elif isinstance(node, ast.Constant) and isinstance(node.value, str) and "{" in node.value and not isinstance(parent(node), ast.JoinedStr) \
-                    and not isinstance(parent(node), (ast.Expr, ast.arguments)):
-                for txt, W, P, t in _specs_in_string(node.value):
-                    if t in ("e", "E", "f", "F") and P is not None:
-                        n += 1
-                        mw = max_width(W, P, t)
-                        ok = mw is not None and mw <= W
-                        once.check(ok, f"{q}: template spec `{txt}` fits its {W}-character field for every finite value", node,
-                                  None if ok else (f"renders up to {mw} characters" if mw else "fixed notation is unbounded"),
-                                  key=f"C13-R1|{q}|template {txt}@{node.value[:20]!r}")
+        bodies = [fn] + (_reached_helpers(m, fn, set()) if "." not in q else [])
+        E0 = M.Engine(m, fn)
+        # default `form`
+        for pname in [x.arg for x in fn.args.posonlyargs + fn.args.args + fn.args.kwonlyargs]:
+            if pname != "form":
+                continue
+            try:
+                dv, where = _effective_default(E0, fn, pname)
+            except Unsupported:
+                dv, where = None, None
+            specs = []
+            _float_specs(dv, specs, where)
+            for sp, role, val, node in specs:
+                n += 1
+                W = sp.width or 0
+                mw = M.float_max_width(sp)
+                txt = "{:" + sp.canon() + "}"
+                if mw is None:
+                    P = 6 if sp.prec is None else sp.prec
+                    hi, lo = W - P - 1, W - P - 2
+                    once.check(False, f"{q}: default form `{txt}` fits its {W}-character field for every finite value", fn,
+                               f"fixed notation grows with magnitude: {W + 1} characters for any value >= 1e{hi} or <= -1e{lo}; the reader then "
+                               "loses the following field (silent corruption)", key=f"C13-R1|{q}|default form {txt}")
+                else:
+                    ok = mw <= W
+                    once.check(ok, f"{q}: default form `{txt}` fits its {W}-character field for every finite value", fn,
+                               None if ok else f"a negative value with a three-digit exponent renders {mw} characters (e.g. -1e-100)",
+                               key=f"C13-R1|{q}|default form {txt}")
+        for body in bodies:
+            E = E0 if body is fn else M.Engine(m, body)
+            locs = E.locals
+            for nm in walk_no_nested(body):
+                if isinstance(nm, ast.Name) and isinstance(nm.ctx, ast.Load) and nm.id in modconsts and nm.id not in locs:
+                    nm._c13_modconst = isinstance(E.module_const(nm.id), S)
+            st = _lazy_state(E, body)
+            for root in _string_roots(body):
+                try:
+                    v = E.ev(root, st)
+                except Unsupported:
+                    continue
+                specs = []
+                _float_specs(v, specs, root)
+                for sp, role, val, node in specs:
+                    n += 1
+                    W = sp.width or 0
+                    mw = M.float_max_width(sp)
+                    ok = mw is not None and mw <= W
+                    what = sp.canon() + (f" of {role}" if role and role.startswith("term") else "")
+                    shown = ("{" + (show(val) if val is not None else "") + ":" + sp.text + "}")
+                    once.check(ok, f"{q}: spec `{shown}` fits its {W}-character field for every finite value", node,
+                               None if ok else (f"a negative value with a three-digit exponent renders {mw} characters" if mw else "fixed notation is unbounded"),
+                               key=f"C13-R1|{q}|spec {what}")
     ctx.check(n >= 8, f"format-width rule bound to {n} floating-point specs in writer functions", BULK + ":1", nontrivial=False)
-    # ---- wttabled1: line templates are 8 + 64 columns and the user `form` is validated
+
+
+def _arm_value(atom, facts, allowed):
+    """the values of `atom` the facts leave possible, and whether all of them are allowed"""
+    ok, cand = M.possible_values(atom, facts, extra=allowed, lo=0)
+    return ok, all(v in allowed for v in ok)
+
+
+def _tabled1(ctx):
     fn = ctx.src.func(BULK, "wttabled1")
-    guard = [s for s in fn.body if isinstance(s, ast.If) and any(isinstance(x, ast.Raise) for x in s.body)
-             and "n!=16andn!=32" in ast.unparse(s.test).replace(" ", "")]
-    ndef = [s for s in fn.body if isinstance(s, ast.Assign) and ast.unparse(s.targets[0]) == "n"]
-    ok = bool(guard) and bool(ndef) and ast.unparse(ndef[0].value).replace(" ", "") == "len(form.format(1,1))"
-    ctx.check(ok, "wttabled1: a user `form` must render a pair in 16 or 32 characters", guard[0] if guard else fn)
-    arms = [s for s in fn.body if isinstance(s, ast.If) and ast.unparse(s.test).replace(" ", "") == "n==32"]
-    if len(arms) != 1:
-        raise AnchorError("wttabled1: `if n == 32` arms")
-    for label, body, pairw, per in (("large field", arms[0].body, 32, 2), ("small field", arms[0].orelse, 16, 4)):
-        calls = [n_ for s in body for n_ in ast.walk(s) if isinstance(n_, ast.Call) and dotted(n_.func) == "writer.vecwrite"]
-        if len(calls) != 1:
+    E = engine(ctx, BULK, "wttabled1")
+    form = ("sym", "form")
+    paths = [s for s in E.finals if s.status in ("run", "return")]
+    if not paths:
+        raise AnchorError("wttabled1: no path reaches the end of the function")
+    # the quantity the guard speaks about: len(form.format(<a pair>))
+    atoms = []
+    for s in paths:
+        for at in flen_atoms(s.facts, "form"):
+            if at not in atoms:
+                atoms.append(at)
+    data_events = [e for e in E.events("call") if is_vecwrite(e) or (is_write(e) and isinstance(e.d["args"][0], S)
+                                                                     and any(x[0] == "fmt" and x[1] == form for x in e.d["args"][0].p))]
+    if not data_events:
+        raise AnchorError("wttabled1: writes of `form`-rendered data")
+    X = atoms[0] if len(atoms) == 1 else ("flen", form, 2)
+    ok = len(atoms) == 1 and X[2] == 2
+    bad = None
+    for e in data_events:
+        vals, fine = _arm_value(X, e.facts, (16, 32))
+        if not fine:
+            ok = False
+            bad = bad or (e, sorted(vals))
+    ctx.check(ok, "wttabled1: a user `form` must render a pair in 16 or 32 characters", bad[0].node if bad else fn,
+              None if ok else ({"lengths not excluded before data is written": bad[1][:8]} if bad else "no test of len(form.format(<pair>))"))
+    N = lin(("len", ("sym", "t")))
+    for label, pairw, per in (("large field", 32, 2), ("small field", 16, 4)):
+        arm = [s for s in paths if M.possible_values(X, s.facts, extra=(16, 32), lo=0)[0] == {pairw}]
+        if not arm:
+            ctx.error(f"wttabled1 [{label}]: no path on which a pair renders in {pairw} characters", fn)
+            continue
+        res = {"line": True, "head": True, "inter": True, "left": True, "loop": True, "lasthead": True, "endt": True, "hdr": True}
+        det = {}
+        where = {}
+        seen_vec = False
+        for s in arm:
+            outs = [e for e in s.events if e.kind == "call" and (is_write(e) or is_vecwrite(e))]
+            vec = [e for e in outs if is_vecwrite(e)]
+            u = None
+            if len(vec) > 1:
+                res["line"] = False
+                det["line"] = "more than one vectorised write on a path"
+            for e in vec:
+                seen_vec = True
+                where.setdefault("vec", e.node)
+                _, tmpl, data = vecwrite_parts(e)
+                if not isinstance(tmpl, S):
+                    res["line"] = False
+                    det["line"] = show(tmpl)
+                    continue
+                lines, term = M.split_lines(tmpl.p)
+                lay = [line_layout(ln, pairw) for ln in lines]
+                okl = term and len(lay) == 1 and lay[0]["ok"] and lay[0]["head"] is not None and len(lay[0]["head"]) == 8 and not lay[0]["stray"] \
+                    and lay[0]["fields"] == per and all(w == pairw for w in lay[0]["widths"]) \
+                    and all(it[0] in ("text", "sub") for it in M.template_items(tmpl))
+                if not okl:
+                    res["line"] = False
+                    det["line"] = repr(tmpl)
+                head = lay[0]["head"] if lay and lay[0]["head"] else ""
+                det["headtext"] = head
+                if not (head[:1] in ("*", " ", "+") and (head[:1] == "*") == (pairw == 32)):
+                    res["head"] = False
+                # data arguments: per interleaved strides of t and d with one common upper bound
+                want = []
+                for i in range(per):
+                    want += [("t", i), ("d", i)]
+                got = []
+                ups = set()
+                for a in data:
+                    if isinstance(a, tuple) and a and a[0] == "slice" and M.is_int_const(lin(a[2])) and M.is_int_const(lin(a[4])) \
+                            and M.ival(lin(a[4])) == per and M.origin(a[1])[0] == "sym":
+                        got.append((M.origin(a[1])[1], M.ival(lin(a[2]))))
+                        ups.add(a[3] if not isinstance(a[3], Lin) else a[3])
+                    else:
+                        got.append(show(a))
+                if got != want or len(ups) != 1:
+                    res["inter"] = False
+                    det["inter"] = [str(g) for g in got]
+                elif isinstance(next(iter(ups)), Lin):
+                    u = next(iter(ups))
+                    # equal lengths of the strided vectors need per | u
+                    lo_, hi_ = M.bounds(M.mod(u, per), e.facts)
+                    if not (lo_ == 0 and hi_ == 0):
+                        res["inter"] = False
+                        det["inter"] = f"upper bound {show(u)} is not a multiple of {per}"
+                else:
+                    res["inter"] = False
+                    det["inter"] = "upper bound of the slices: " + show(next(iter(ups)))
+            # leftover loop
+            loops = [e for e in s.events if e.kind == "for"]
+            lp = None
+            for e in loops:
+                it = e.d["iter"]
+                if isinstance(it, tuple) and it and it[0] == "range":
+                    lp = e
+            if lp is None:
+                res["loop"] = False
+                det["loop"] = "no loop over the leftover pairs"
+            else:
+                where.setdefault("loop", lp.node)
+                it = lp.d["iter"]
+                lo_, hi_ = it[1], it[2]
+                if u is None:
+                    u_here = lo_
+                else:
+                    u_here = u
+                okr = lo_ == u_here and hi_ == N and it[3] == Lin(c=1)
+                j = lp.d["target"]
+                inner = [e for e in outs if lp.d["loop"] in e.loops and is_write(e)]
+                okw = len(inner) == 1 and isinstance(inner[0].d["args"][0], S) and len(inner[0].d["args"][0].p) == 1
+                if okw:
+                    x = inner[0].d["args"][0].p[0]
+                    okw = x[0] == "fmt" and x[1] == form and len(x[2]) == 2 and all(
+                        isinstance(a, tuple) and a and a[0] == "elem" and a[2] == j and M.origin(a[1]) == ("sym", nm) for a, nm in zip(x[2], ("t", "d")))
+                if not (okr and okw):
+                    res["loop"] = False
+                    det["loop"] = {"range": show(it), "write": [show(e.d["args"][0]) for e in inner]}
+                # leftover count: npts - u in 0..per-1  (u: where the vectorised write stops = where the loop starts)
+                left = N - lo_
+                blo, bhi = M.bounds(left, lp.facts[:0] + tuple(f for f in lp.facts if not M.mentions(f[0], the_atom(j) if isinstance(j, Lin) else j)))
+                if not (blo is not None and bhi is not None and blo >= 0 and bhi <= per - 1):
+                    w = M.find_witness([("len", ("sym", "t"))], s.facts, lambda a: not (0 <= M.lin_eval(left, a) <= per - 1), ranges={("len", ("sym", "t")): (1, 48)})
+                    res["left"] = False
+                    det["left"] = {"leftover pairs range": [str(blo), str(bhi)], "start of the leftover loop": show(lo_),
+                                   "witness": {show(k): v for k, v in w.items()} if w else None}
+                    if w is None and (blo is None or bhi is None):
+                        det["left"]["undecided"] = True
+                where.setdefault("rows", lp.node)
+            # head of the last line: the write just before the leftover pairs
+            plain = [e for e in outs if is_write(e) and not e.loops]
+            pre = [e for e in plain if lp is not None and e.seq < lp.seq and (not vec or e.seq > vec[-1].seq)]
+            if vec:
+                cand = pre
+            else:
+                cand = pre[-1:] if pre else []
+            okh = len(cand) == 1 and isinstance(cand[0].d["args"][0], S) and cand[0].d["args"][0].text() is not None \
+                and len(cand[0].d["args"][0].text()) == 8 and (cand[0].d["args"][0].text()[:1] == "*") == (pairw == 32) \
+                and cand[0].d["args"][0].text()[:1] in ("*", " ", "+")
+            if not okh:
+                res["lasthead"] = False
+                det["lasthead"] = [show(e.d["args"][0]) for e in cand]
+            elif cand:
+                where.setdefault("lasthead", cand[0].node)
+            # ENDT closes the table
+            last = outs[-1] if outs else None
+            if not (last is not None and is_write(last) and isinstance(last.d["args"][0], S) and last.d["args"][0].text() == "ENDT\n" and not last.loops):
+                res["endt"] = False
+            elif last is not None:
+                where.setdefault("endt", last.node)
+        if not seen_vec:
             ctx.error(f"wttabled1 [{label}]: vecwrite call", fn)
             continue
-        tmpl = calls[0].args[1]
-        # prefix + form * k + "\n"
-        parts = []
-        t = tmpl
-        while isinstance(t, ast.BinOp) and isinstance(t.op, ast.Add):
-            parts.insert(0, t.right)
-            t = t.left
-        parts.insert(0, t)
-        ok = len(parts) == 3 and isinstance(parts[0], ast.Constant) and len(parts[0].value) == 8 \
-            and isinstance(parts[1], ast.BinOp) and isinstance(parts[1].op, ast.Mult) and ast.unparse(parts[1].left) == "form" \
-            and isinstance(parts[1].right, ast.Constant) and parts[1].right.value == per and getattr(parts[2], "value", None) == "\n"
-        ctx.check(ok, f"wttabled1 [{label}]: each full line is an 8-column head + {per} pairs of {pairw} = 72 columns", calls[0],
-                  ast.unparse(tmpl))
-        head = parts[0].value if isinstance(parts[0], ast.Constant) else ""
-        ok = head[:1] in ("*", " ", "+") and (head[0] == "*") == (pairw == 32)
-        ctx.check(ok, f"wttabled1 [{label}]: continuation head `{head}` is the one the reader expects for this field width", calls[0])
-        # data arguments are the k interleaved strides of t and d
-        args = [utext(a) for a in calls[0].args[2:]]
-        want = []
-        for i in range(per):
-            s0 = "" if i == 0 else str(i)
-            want += [f"t[{s0}:r:{per}]", f"d[{s0}:r:{per}]"]
-        ctx.check(args == want, f"wttabled1 [{label}]: the vectorised write interleaves t and d with stride {per}", calls[0], args)
-        # leftover pairs: r = per * (npts // per)  =>  0 <= npts - r <= per - 1, so ENDT still fits on the last line
-        rows = [s for s in body if isinstance(s, ast.Assign) and ast.unparse(s.targets[0]) == "rows"]
-        rdef = [s for s in body if isinstance(s, ast.Assign) and ast.unparse(s.targets[0]) == "r"]
-        rng = None
-        if rows and rdef:
-            rng = _leftover_range(rows[0].value, rdef[0].value, per)
-        ok = rng is not None and rng[0] >= 0 and rng[1] <= per - 1
-        ctx.check(ok, f"wttabled1 [{label}]: after the full lines 0..{per - 1} pairs remain, so the pairs and ENDT fit in the {per * 2} fields of the last line",
-                  rows[0] if rows else fn, None if ok else {"leftover pairs range": rng, "rows": ast.unparse(rows[0].value) if rows else None})
-        loop = [s for s in body if isinstance(s, ast.For)]
-        ok = bool(loop) and ast.unparse(loop[0].iter).replace(" ", "") == "range(r,npts)" and \
-            "f.write(form.format(t[j],d[j]))" in ast.unparse(loop[0]).replace(" ", "")
-        ctx.check(ok, f"wttabled1 [{label}]: the leftover pairs r..npts-1 are written one by one on the last line", loop[0] if loop else fn)
-    last = fn.body[-1]
-    ok = utext(last).replace("'", '"') == 'f.write("ENDT\\n")'
-    ctx.check(ok, "wttabled1: ENDT closes the table", last)
-    # ---- wtgrids templates: 8 + n*W with W validated
-    fn = ctx.src.func(BULK, "wtgrids")
-    strs = [s for s in walk_no_nested(fn) if isinstance(s, ast.Assign) and ast.unparse(s.targets[0]) == "string"]
-    for s in strs:
-        lines = _template_lines(s.value)
-        if lines is None:
-            ctx.error("wtgrids: template shape", s)
-            continue
-        for ln in lines:
-            W = 16 if ln["head"].rstrip().endswith("*") or ln["head"].startswith("*") else 8
-            per = 4 if W == 16 else 8
-            ok = len(ln["head"]) == 8 and ln["fields"] <= per and all(w == W for w in ln["widths"])
-            ctx.check(ok, f"wtgrids: line `{ln['head']}` has an 8-column head and {ln['fields']} <= {per} fields of width {W}", s, ln)
-    g = [s for s in fn.body if isinstance(s, ast.If) and any(isinstance(x, ast.Raise) for x in s.body)
-         and "length!=8andlength!=16" in ast.unparse(s.test).replace(" ", "")]
-    ctx.check(bool(g), "wtgrids: a user `form` must render in 8 or 16 characters", g[0] if g else fn)
-
-
-def _leftover_range(rows_expr, r_expr, per):
-    """rows = (npts + c) // q ; r = rows * q  ->  range of npts - r over npts >= 1"""
-    c = 0
-    e = rows_expr
-    if not (isinstance(e, ast.BinOp) and isinstance(e.op, ast.FloorDiv) and isinstance(e.right, ast.Constant)):
-        return None
-    q = e.right.value
-    num = e.left
-    if isinstance(num, ast.Name) and num.id == "npts":
-        c = 0
-    elif isinstance(num, ast.BinOp) and isinstance(num.left, ast.Name) and num.left.id == "npts" and isinstance(num.right, ast.Constant):
-        c = num.right.value if isinstance(num.op, ast.Add) else -num.right.value if isinstance(num.op, ast.Sub) else None
-        if c is None:
-            return None
-    else:
-        return None
-    rt = utext(r_expr)
-    if rt not in (f"rows*{q}", f"{q}*rows") or q != per:
-        return None
-    # npts - q*floor((npts+c)/q) ranges over [-c, -c + q - 1]
-    return (-c, -c + q - 1)
-
-
-def _template_lines(node):
-    """"GRID*   {:16d}{:16d}" + form * 2 + "\n*       " + form + "{:16d}\n"  -> list of physical lines"""
-    parts = []
-    t = node
-    while isinstance(t, ast.BinOp) and isinstance(t.op, ast.Add):
-        parts.insert(0, t.right)
-        t = t.left
-    parts.insert(0, t)
-    seq = []   # tokens: ('txt', str) | ('form', k)
-    for p_ in parts:
-        if isinstance(p_, ast.Constant) and isinstance(p_.value, str):
-            seq.append(("txt", p_.value))
-        elif isinstance(p_, ast.Name) and p_.id == "form":
-            seq.append(("form", 1))
-        elif isinstance(p_, ast.BinOp) and isinstance(p_.op, ast.Mult) and ast.unparse(p_.left) == "form" and isinstance(p_.right, ast.Constant):
-            seq.append(("form", p_.right.value))
+        vnode = where.get("vec", fn)
+        ctx.check(res["line"], f"wttabled1 [{label}]: each full line is an 8-column head + {per} pairs of {pairw} = 72 columns", vnode, det.get("line"))
+        ctx.check(res["head"], f"wttabled1 [{label}]: continuation head `{det.get('headtext', '')}` is the one the reader expects for this field width", vnode)
+        ctx.check(res["inter"], f"wttabled1 [{label}]: the vectorised write interleaves t and d with stride {per}", vnode, det.get("inter"))
+        if res["left"] is False and isinstance(det.get("left"), dict) and det["left"].get("undecided"):
+            ctx.error(f"wttabled1 [{label}]: range of the leftover pairs", where.get("rows", fn), det["left"])
         else:
-            return None
-    lines = [{"head": None, "fields": 0, "widths": []}]
-    for kind, v in seq:
-        if kind == "form":
-            lines[-1]["fields"] += v
+            ctx.check(res["left"], f"wttabled1 [{label}]: after the full lines 0..{per - 1} pairs remain, so the pairs and ENDT fit in the {per * 2} fields of the last line",
+                      where.get("rows", fn), det.get("left"))
+        ctx.check(res["loop"], f"wttabled1 [{label}]: the leftover pairs r..npts-1 are written one by one on the last line", where.get("loop", fn), det.get("loop"))
+        ctx.check(res["lasthead"], f"wttabled1 [{label}]: the last line starts with an 8-column head legal for this field width", where.get("lasthead", fn),
+                  det.get("lasthead"))
+        yield label, res["endt"], where.get("endt", fn)
+
+
+def r1_templates(ctx):
+    once = _Once(ctx)
+    _width_obligations(ctx, once)
+    # ---- wttabled1: line templates are 8 + 64 columns and the user `form` is validated
+    endt = list(_tabled1(ctx))
+    ok = bool(endt) and all(x[1] for x in endt)
+    ctx.check(ok, "wttabled1: ENDT closes the table", endt[0][2] if endt else ctx.src.func(BULK, "wttabled1"))
+    # ---- wtgrids templates: 8 + n*W with W validated
+    _grids(ctx, once)
+
+
+def _grids(ctx, once):
+    fn = ctx.src.func(BULK, "wtgrids")
+    E = engine(ctx, BULK, "wtgrids")
+    form = ("sym", "form")
+    vec = [e for e in E.events("call") if is_vecwrite(e)]
+    if not vec:
+        raise AnchorError("wtgrids: vecwrite call")
+    atoms = []
+    for e in vec:
+        for at in flen_atoms(e.facts, "form"):
+            if at not in atoms:
+                atoms.append(at)
+    X = atoms[0] if len(atoms) == 1 else ("flen", form, 1)
+    okg = len(atoms) == 1 and X[2] == 1
+    bad = None
+    for e in vec:
+        vals, fine = _arm_value(X, e.facts, (8, 16))
+        if not fine:
+            okg = False
+            bad = bad or (e, sorted(vals))
             continue
-        segs = v.split("\n")
-        for i, sg in enumerate(segs):
-            if i > 0:
-                lines.append({"head": None, "fields": 0, "widths": []})
-            if not sg:
-                continue
-            cur = lines[-1]
-            rest = sg
-            if cur["head"] is None:
-                cur["head"] = sg[:8]
-                rest = sg[8:]
-            for m in re.finditer(r"\{:[<>^]?(\d+)[a-z]?\}", rest):
-                cur["fields"] += 1
-                cur["widths"].append(int(m.group(1)))
-    return [ln for ln in lines if ln["head"] is not None]
+        _, tmpl, data = vecwrite_parts(e)
+        if not isinstance(tmpl, S):
+            ctx.error("wtgrids: template shape", e.node, show(tmpl))
+            continue
+        if len(vals) != 1:
+            ctx.error("wtgrids: field width of a template", e.node, {"possible lengths of form.format(x)": sorted(vals), "template": repr(tmpl)})
+            continue
+        Wf = next(iter(vals))
+        lines, term = M.split_lines(tmpl.p)
+        if not term or not lines:
+            once.check(False, f"wtgrids: template {tmpl!r} ends its last line", e.node, key=f"wtgrids-nl|{tmpl!r}")
+            continue
+        for i, ln in enumerate(lines):
+            lay = line_layout(ln, Wf)
+            head = lay["head"] or ""
+            W = 16 if "*" in head else 8
+            per = 4 if W == 16 else 8
+            ok = lay["ok"] and len(head) == 8 and not lay["stray"] and lay["fields"] <= per and all(w == W for w in lay["widths"])
+            once.check(ok, f"wtgrids: line `{head}` has an 8-column head and {lay['fields']} <= {per} fields of width {W}", e.node,
+                       None if ok else {k: (v if k != "widths" else [str(w) for w in v]) for k, v in lay.items()}, key=f"wtgrids-line|{tmpl!r}|{i}")
+        nf = M.count_fields(M.template_items(tmpl), {form: 1})
+        ok = nf is not None and nf == Lin(c=len(data))
+        once.check(ok, f"wtgrids: the template starting `{(line_layout(lines[0], Wf)['head'] or '')}` ({len(lines)} line(s)) consumes exactly the {len(data)} vectors passed",
+                   e.node, None if ok else {"fields": show(nf) if nf is not None else None, "vectors": len(data)}, key=f"wtgrids-args|{tmpl!r}")
+    ctx.check(okg, "wtgrids: a user `form` must render in 8 or 16 characters", bad[0].node if bad else fn,
+              None if okg else ({"lengths not excluded before data is written": bad[1][:8]} if bad else "no test of len(form.format(x))"))
 
 
+# ====================================================================================================================== R2
 def r2_nonempty_vector(ctx):
     """writer.vecwrite treats a zero-length vector as length 1 and then indexes element 0"""
     fn = ctx.src.func(WRITER, "vecwrite")
-    init = [s for s in fn.body if isinstance(s, ast.Assign) and ast.unparse(s.targets[0]) == "length"]
-    ups = [s for s in ast.walk(fn) if isinstance(s, ast.Assign) and ast.unparse(s.targets[0]) == "length" and s not in init]
-    guarded = all(any(isinstance(a, ast.If) and ast.unparse(a.test).replace(" ", "") == "curlen>1" for a in ancestors(u)) for u in ups)
-    summary = bool(init) and ast.unparse(init[0].value) == "1" and bool(ups) and guarded
-    item = ctx.src.func(WRITER, "vecwrite._get_itemi")
-    summary = summary and "a[i]" in ast.unparse(item)
-    ctx.check(summary, "vecwrite summary: `length` starts at 1 and is raised only by a vector longer than 1, and vector arguments are indexed "
-                       "with a[i] => a zero-length vector argument raises IndexError", fn)
-    if not summary:
-        ctx.note("vecwrite no longer has the empty-vector hazard; call-site guards are not required")
+    E = engine(ctx, WRITER, "vecwrite")
+    why = []
+    asg = [e for e in E.events("assign") if e.d["name"] == "length"]
+    init = [e for e in asg if not e.loops]
+    ups = [e for e in asg if e.loops]
+    if not (init and all(e.d["value"] == Lin(c=1) for e in init)):
+        why.append("the count does not start at 1")
+    if not ups:
+        why.append("the count is never raised")
+    for e in ups:
+        lo, _ = M.bounds(lin(e.d["value"]) - 2, e.facts)
+        if not (lo is not None and lo >= 0):
+            why.append(f"the count is set to {show(e.d['value'])} without a test that it exceeds 1")
+    # the accessor chosen for a vector whose length is not 1 (and which is not 2-D) indexes element i; a zero-length vector reaches it
+    acc = None
+    for e in E.events("call"):
+        if e.d["attr"] == "append" and e.loops and len(e.d["args"]) == 1 and isinstance(e.d["args"][0], tuple) and e.d["args"][0][:1] == ("func",):
+            name = e.d["args"][0][1]
+            sub = ctx.src.mod(WRITER).funcs.get("vecwrite." + name)
+            if sub is None or len(sub.args.args) != 2:
+                continue
+            a, i = (x.arg for x in sub.args.args)
+            Es = M.Engine(ctx.src.mod(WRITER), sub)
+            Es.run()
+            rets = [r.d["value"] for r in Es.events("return")]
+            idx = ("elem", ("sym", a), ("sym", i))
+            if rets and all(r == ("tuple", (idx,)) for r in rets):
+                # 1-D accessor: can the vector be empty here?
+                lens = [at for t, _ in e.facts for at in M.free_symbols(t) if isinstance(at, tuple) and at[0] == "len"]
+                for at in lens:
+                    vals, _ = M.possible_values(at, e.facts, lo=0)
+                    if 0 in vals:
+                        acc = (e, name)
+                if not lens:
+                    acc = (e, name)
+    ctx.src.funcs_consulted.add(f"{WRITER}:vecwrite._get_itemi") if ctx.src.has_func(WRITER, "vecwrite._get_itemi") else None
+    if acc is None:
+        why.append("no accessor `[a[i]]` is reached by a zero-length vector")
+    if why:
+        ctx.error("vecwrite summary: `length` starts at 1 and is raised only by a vector longer than 1, and vector arguments are indexed with a[i]", fn,
+                  {"not derived": why, "note": "if vecwrite now accepts empty vectors the call-site guards are no longer required: re-derive this rule"})
         return
-    # call sites whose vector arguments can be empty: slices bounded by r = q * (npts // q)
+    ctx.ok("vecwrite summary: `length` starts at 1 and is raised only by a vector longer than 1, and vector arguments are indexed "
+           "with a[i] => a zero-length vector argument raises IndexError", fn)
+    # call sites whose vector arguments are slices of symbolic extent
     m = ctx.src.mod(BULK)
     nsites = 0
     for q, f2 in sorted(m.funcs.items()):
-        for c in walk_no_nested(f2):
-            if isinstance(c, ast.Call) and dotted(c.func) == "writer.vecwrite":
-                sl = [a for a in c.args[2:] if isinstance(a, ast.Subscript) and isinstance(a.slice, ast.Slice) and a.slice.upper is not None
-                      and isinstance(a.slice.upper, ast.Name)]
-                if not sl:
-                    continue
-                bound = sl[0].slice.upper.id
-                # is the bound a floor-division product that can be zero?
-                defs = [s for s in ast.walk(f2) if isinstance(s, ast.Assign) and ast.unparse(s.targets[0]) == bound]
-                canzero = any("rows*" in ast.unparse(d.value).replace(" ", "") or "*rows" in ast.unparse(d.value).replace(" ", "") for d in defs)
-                if not canzero:
-                    continue
-                nsites += 1
-                st = enclosing_stmt(c)
-                doms = [ast.unparse(a.test).replace(" ", "") for a in ancestors(st) if isinstance(a, ast.If) and _in_body(a, st)]
-                ok = any(t in ("rows", "rows>0", "r", "r>0", f"{bound}>0", "rows!=0", "rows>=1") for t in doms)
-                label = "large field" if any("n==32" == t for t in doms) else "small field"
-                ctx.check(ok, f"{q} [{label}]: the vectorised write of `{ast.unparse(sl[0])}` ... is executed only when there is at least one full line "
-                              f"(`{bound}` = q*(npts//q) can be 0)", c,
-                          None if ok else f"`{bound}` is 0 for fewer points than fit on one line; vecwrite then indexes an empty array (IndexError): "
-                                          "a table with < 4 points (small field) or 1 point (large field) cannot be written",
-                          key=f"C13-R2|{q}|{label}|unguarded vecwrite on {bound}")
+        if not any(isinstance(c, ast.Call) and (dotted(c.func) or "").split(".")[-1] == "vecwrite" for c in walk_no_nested(f2)):
+            continue
+        if not any(isinstance(c, ast.Call) and (dotted(c.func) or "").split(".")[-1] == "vecwrite"
+                   and any(isinstance(a, ast.Subscript) and isinstance(a.slice, ast.Slice) for a in c.args) for c in walk_no_nested(f2)) \
+                and q != "wttabled1":
+            continue
+        try:
+            E2 = engine(ctx, BULK, q)
+        except Unsupported as ex:
+            ctx.error(f"{q}: vecwrite call sites", f2, str(ex))
+            continue
+        by_node = {}
+        for e in E2.events("call"):
+            if is_vecwrite(e):
+                by_node.setdefault(id(e.node), []).append(e)
+        for evs in by_node.values():
+            sl = [a for a in vecwrite_parts(evs[0])[2] if isinstance(a, tuple) and a and a[0] == "slice"]
+            if not sl:
+                continue
+            if all(M.is_int_const(lin(a[3])) for a in sl if isinstance(a[3], Lin)) and all(isinstance(a[3], Lin) for a in sl):
+                continue
+            nsites += 1
+            verdict, detail, label = True, None, ""
+            for e in evs:
+                # domain of the property: tables and lists of at least one entry
+                dom = tuple((("cmp", "GtE", lin(at), Lin(c=1)), True) for a in vecwrite_parts(e)[2] if isinstance(a, tuple) and a[:1] == ("slice",)
+                            for at in M.free_symbols(E2.slice_len(a, e.facts) or Lin()) if isinstance(at, tuple) and at[0] == "len")
+                e = M.Event(e.kind, e.node, e.d, e.facts + tuple(f for f in dict.fromkeys(dom)), e.loops, e.seq)
+                flen = flen_atoms(e.facts, "form")
+                if flen:
+                    vals = M.possible_values(flen[0], e.facts, extra=(16, 32), lo=0)[0]
+                    label = " [large field]" if vals == {32} else " [small field]" if vals == {16} else ""
+                for a in [x for x in vecwrite_parts(e)[2] if isinstance(x, tuple) and x and x[0] == "slice"]:
+                    ln = E2.slice_len(a, e.facts)
+                    if ln is None:
+                        verdict, detail = None, f"length of {show(a)}"
+                        break
+                    lo, _ = M.bounds(ln - 1, e.facts)
+                    if lo is not None and lo >= 0:
+                        continue
+                    syms = [s_ for s_ in M.free_symbols(ln) if isinstance(s_, tuple) and s_[0] == "len"]
+                    w = M.find_witness(syms, e.facts, lambda asg_, ln=ln: (M.lin_eval(ln, asg_) is not None and M.lin_eval(ln, asg_) <= 0),
+                                       ranges={s_: (1, 48) for s_ in syms}) if syms else None
+                    if w is not None:
+                        verdict = False
+                        detail = (f"`{show(a)}` is empty for {', '.join(show(k) + ' = ' + str(v) for k, v in w.items())}; vecwrite then indexes an empty array "
+                                  "(IndexError): a table with < 4 points (small field) or 1 point (large field) cannot be written")
+                    else:
+                        verdict, detail = None, f"cannot bound the length {show(ln)} of {show(a)}"
+                    break
+                if verdict is not True:
+                    break
+            shown = show(sl[0])
+            inst = (f"{q}{label}: the vectorised write of `{shown}` ... is executed only when there is at least one full line")
+            if verdict is None:
+                ctx.error(inst, evs[0].node, detail)
+            else:
+                ctx.check(verdict, inst, evs[0].node, detail, key=f"C13-R2|{q}|{label.strip(' []')}|unguarded vecwrite")
+    ctx.assume("C13-R2: the sequences handed to the writers have at least one entry (the property quantifies over lengths 1..n)")
     ctx.check(nsites >= 2, f"non-empty vector contract bound to {nsites} call sites", BULK + ":1", nontrivial=False)
 
 
-def _in_body(ifnode, node):
-    return any(node is x or any(node is y for y in ast.walk(x)) for x in ifnode.body)
+# ====================================================================================================================== R3
+def _columns(v):
+    """the columns of a 2-D array built from 1-D vectors: vstack([a, b]).T, column_stack((a, b)), array([a, b]).T, c_[a, b]"""
+    if isinstance(v, tuple) and v and v[0] == "op":
+        if v[1] == "T" and isinstance(v[2][0], tuple) and v[2][0][:1] == ("op",) and v[2][0][1] in ("np.vstack", "np.array", "np.asarray", "np.stack", "np.row_stack") \
+                and isinstance(v[2][0][2][0], tuple) and v[2][0][2][0][:1] == ("tuple",):
+            return list(v[2][0][2][0][1])
+        if v[1] in ("np.column_stack",) and isinstance(v[2][0], tuple) and v[2][0][:1] == ("tuple",):
+            return list(v[2][0][1])
+    if isinstance(v, tuple) and v and v[0] == "elem" and v[1] == ("sym", "np.c_") and isinstance(v[2], tuple) and v[2][:1] == ("tuple",):
+        return list(v[2][1])
+    return None
+
+
+def _transpose_form(v):
+    """(base, transposed?, conjugated?) of a matrix expression built from .T / .transpose() / .conj()"""
+    tr = cj = False
+    while isinstance(v, tuple) and v and v[0] == "op":
+        if v[1] == "T" and len(v[2]) == 1:
+            tr = not tr
+            v = v[2][0]
+        elif v[1] in (".conj", ".conjugate", "np.conj", "np.conjugate") and len(v[2]) == 1:
+            cj = not cj
+            v = v[2][0]
+        else:
+            break
+    return v, tr, cj
 
 
 def r3_reader_strides(ctx):
+    # ---- rdtabled1: columns of the returned table
     fn = ctx.src.func(BULK, "rdtabled1")
-    txt = utext(fn)
-    ok = "np.vstack([vec[8:-1:2],vec[9:-1:2]]).T" in txt
-    ctx.check(ok, "rdtabled1: abscissae are fields 8,10,... and ordinates fields 9,11,... up to (not including) the final ENDT field", fn)
-    # writer side: the first pair is the first field of the first continuation line = field index 8
-    w = ctx.src.func(BULK, "wttabled1")
-    heads = [n for n in ast.walk(w) if isinstance(n, ast.JoinedStr) and "tablestr" in ast.unparse(n)]
-    for h in heads:
-        s = ast.unparse(h)
-        ok = s.endswith("\\n'") or s.endswith('\\n"') or "\\n*\\n" in s
-        ctx.check(ok, "wttabled1: the header card line holds only name + id, so the first pair starts field 8 (second line)", h)
-    # rdgrids pads to 8 columns; wtgrids writes at most 8 fields after the name
+    E = engine(ctx, BULK, "rdtabled1")
+    stores = [e for e in E.events("store") if e.loops]
+    ok = False
+    detail = None
+    for e in stores:
+        cols = _columns(e.d["value"])
+        if cols is None or len(cols) != 2:
+            detail = show(e.d["value"])
+            continue
+        a, b = cols
+        good = all(isinstance(c, tuple) and c and c[0] == "slice" for c in (a, b)) and a[1] == b[1] \
+            and a[2] == Lin(c=8) and b[2] == Lin(c=9) and a[3] == Lin(c=-1) == b[3] and a[4] == Lin(c=2) == b[4]
+        # the vector sliced is the card of the table the result is stored under
+        src = a[1] if good else None
+        good = good and isinstance(src, tuple) and src[0] == "elem" and src[1] == e.d["base"] and src[2] == e.d["index"]
+        ok = ok or good
+        detail = None if good else [show(c) for c in cols]
+    ctx.check(ok, "rdtabled1: abscissae are fields 8,10,... and ordinates fields 9,11,... up to (not including) the final ENDT field", stores[0].node if stores else fn, detail)
+    # ---- writer side: the header occupies card fields 0..7, so the first pair is field 8
+    Ew = engine(ctx, BULK, "wttabled1")
+    form = ("sym", "form")
+    paths = [s for s in Ew.finals if s.status in ("run", "return")]
+    atoms = []
+    for s in paths:
+        for at in flen_atoms(s.facts, "form"):
+            if at not in atoms:
+                atoms.append(at)
+    X = atoms[0] if len(atoms) == 1 else ("flen", form, 2)
+    for pairw in (32, 16):
+        arm = [s for s in paths if M.possible_values(X, s.facts, extra=(16, 32), lo=0)[0] == {pairw}]
+        W = pairw // 2
+        okh, node, det = bool(arm), None, None
+        for s in arm:
+            outs = [e for e in s.events if e.kind == "call" and (is_write(e) or is_vecwrite(e))]
+            hdr = [e for e in outs if is_write(e) and isinstance(e.d["args"][0], S) and any(x[0] == "fv" and x[2] == ("sym", "tid") for x in e.d["args"][0].p)]
+            if len(hdr) != 1:
+                okh, det = False, "header write"
+                continue
+            node = node or hdr[0].node
+            # nothing but comments before it, data right after it
+            before = [e for e in outs if e.seq < hdr[0].seq]
+            if any(not (is_write(e) and isinstance(e.d["args"][0], S) and (e.d["args"][0].p[:1] or (("", ""),))[0][0] == "lit"
+                        and e.d["args"][0].p[0][1].startswith("$")) for e in before):
+                okh, det = False, "output before the header card"
+            lines, term = M.split_lines(hdr[0].d["args"][0].p)
+            lay = [line_layout(ln, None) for ln in lines]
+            per_line = 64 // W
+            good = term and len(lines) * per_line == 8 and lay[0]["widths"] == [8, W] and not lay[0]["stray"] and lay[0]["head"] is None \
+                and all(l_["fields"] == 0 and not l_["stray"] and l_["head"] in ("*", "+", "*       ", "+       ") for l_ in lay[1:])
+            if not good:
+                okh, det = False, repr(hdr[0].d["args"][0])
+        ctx.check(okh, "wttabled1: the header card line holds only name + id, so the first pair starts field 8 (second line)", node or Ew.fn, det)
+    # ---- rdgrids pads to 8 columns; wtgrids writes at most 8 fields after the name
     fn = ctx.src.func(BULK, "rdgrids")
-    txt = utext(fn)
-    ok = "ifc<8:" in txt and "np.zeros((np.size(v,0),8-c))" in txt
-    ctx.check(ok, "rdgrids pads short GRID cards to 8 columns", fn)
-    # DMIG: the writer's symmetry test must match the reader's mirror (plain transpose, no conjugation)
+    E = engine(ctx, BULK, "rdgrids")
+    rets = [e for e in E.events("return")]
+    ok, det = bool(rets), None
+    padded = 0
+    for e in rets:
+        v = e.d["value"]
+        if v == ("k", None):
+            continue
+        if isinstance(v, tuple) and v and v[0] == "op" and v[1] in ("np.hstack", "np.concatenate", "np.column_stack") and isinstance(v[2][0], tuple) and v[2][0][:1] == ("tuple",) \
+                and len(v[2][0][1]) == 2:
+            base, pad = v[2][0][1]
+            nc = lin(("dim", M.origin(base), 1))
+            good = isinstance(pad, tuple) and pad[:2] == ("op", "np.zeros") and isinstance(pad[2][0], tuple) and pad[2][0][:1] == ("tuple",) and len(pad[2][0][1]) == 2
+            if good:
+                r, c = pad[2][0][1]
+                good = lin(r) == lin(("len", M.origin(base))) and (nc + lin(c)) == Lin(c=8)
+                lo, hi = M.bounds(nc, e.facts)
+                good = good and hi is not None and hi <= 7
+            if v[1] == "np.concatenate":
+                good = good and len(v) > 3 and dict(v[3]).get("axis") == Lin(c=1)
+            padded += bool(good)
+            if not good:
+                ok, det = False, show(v)
+        else:
+            # returned unchanged: only when it already has at least 8 columns
+            nc = lin(("dim", M.origin(v), 1))
+            lo, hi = M.bounds(nc, e.facts)
+            if not (lo is not None and lo >= 8):
+                ok, det = False, {"returned without padding": show(v), "columns proved": [str(lo), str(hi)]}
+    ok = ok and padded >= 1
+    ctx.check(ok, "rdgrids pads short GRID cards to 8 columns", fn, det)
+    # ---- DMIG: the writer's symmetry test must match the reader's mirror (plain transpose, no conjugation)
+    _dmig(ctx)
+
+
+def _dmig(ctx):
     wd = ctx.src.func(BULK, "wtdmig")
-    tests = [n for n in ast.walk(wd) if isinstance(n, ast.Call) and dotted(n.func) == "np.allclose"]
-    form6 = None
-    for t in tests:
-        p_ = parent(t)
-        if isinstance(p_, ast.If) and any(isinstance(s, ast.Assign) and utext(s) == "form=6" for s in p_.body):
-            form6 = t
-    if form6 is None:
+    E = engine(ctx, BULK, "wtdmig")
+    # reader: every store of an entry under form == 6 has a mirrored store of the same value
+    rd = ctx.src.func(BULK, "rddmig._cards_to_df")
+    Er = engine(ctx, BULK, "rddmig._cards_to_df")
+    stores = [e for e in Er.events("store") if e.d["name"] == "mat" or (isinstance(e.d["index"], tuple) and e.d["index"][:1] == ("tuple",) and len(e.d["index"][1]) == 2)]
+    stores = [e for e in stores if isinstance(e.d["index"], tuple) and e.d["index"][:1] == ("tuple",) and len(e.d["index"][1]) == 2]
+
+    def form6(facts):
+        for t, pol in facts:
+            if isinstance(t, tuple) and t[:2] == ("cmp", "Eq") and Lin(c=6) in t[2:] and pol:
+                return True
+        return False
+    prim = [e for e in stores if not form6(e.facts) or not any(
+        p.d["index"][1] == e.d["index"][1][::-1] and p.d["value"] == e.d["value"] and p.seq < e.seq and p.loops == e.loops for p in stores)]
+    mir = [e for e in stores if e not in prim]
+    plain = bool(prim) and bool(mir)
+    # the quantity compared with 6 (the form read from the header card)
+    forms = {x for e in mir for t, pol in e.facts if pol and isinstance(t, tuple) and t[:2] == ("cmp", "Eq") and Lin(c=6) in t[2:] for x in t[2:] if x != Lin(c=6)}
+    # every primary store that can be reached with form == 6 has its mirror on the same paths
+    for p in prim:
+        if forms and any(_excludes(p.facts, x, 6) for x in forms):
+            continue
+        ms = [e for e in mir if e.d["index"][1] == p.d["index"][1][::-1] and e.d["value"] == p.d["value"] and e.loops == p.loops]
+        if not ms:
+            plain = False
+    ctx.check(plain, "rddmig: a form-6 entry (i, j) is mirrored to (j, i) unchanged (plain symmetry)", mir[0].node if mir else rd,
+              None if plain else {"stores": [(show(e.d["index"]), show(e.d["value"])) for e in stores][:8]})
+    # writer: form 6 only under a test that the matrix equals its plain transpose
+    asg = [e for e in E.events("assign") if e.d["name"] == "form" and e.d["value"] == Lin(c=6)]
+    if not asg:
         ctx.error("wtdmig: symmetric (form 6) test", wd)
     else:
-        a = {utext(x) for x in form6.args[:2]}
-        ok = a in ({"m", "m.transpose()"}, {"m", "m.T"})
-        rd = ctx.src.func(BULK, "rddmig._cards_to_df")
-        mir = [s for s in ast.walk(rd) if isinstance(s, ast.Assign) and ast.unparse(s.targets[0]).replace(" ", "") == "mat[ci,ri]"]
-        prim = {ast.unparse(s.value) for s in ast.walk(rd) if isinstance(s, ast.Assign) and ast.unparse(s.targets[0]).replace(" ", "") == "mat[ri,ci]"}
-        plain = bool(mir) and all(ast.unparse(s.value) in prim for s in mir) and \
-            all(any(isinstance(a_, ast.If) and ast.unparse(a_.test).replace(" ", "") == "form==6" for a_ in ancestors(s)) for s in mir)
-        ctx.check(plain, "rddmig: a form-6 entry (i, j) is mirrored to (j, i) unchanged (plain symmetry)", mir[0] if mir else rd)
-        ctx.check(ok, "wtdmig: a matrix is written as form 6 (half storage) only if it equals its plain transpose - the reader mirrors "
-                      "without conjugation", form6, sorted(a))
-    # wtdmig: start row of the lower triangle and the header
-    txt = utext(wd)
-    ok = "start_row=colifform==6else0" in txt and "forrowinrange(start_row,m.shape[0])" in txt
-    ctx.check(ok, "wtdmig: form 6 writes rows col..n-1 of each column (one of each (i,j)/(j,i) pair)", wd)
-    ok = "num_str.replace('E','D')" in txt and "ifmtype&1==0" in txt
-    ctx.check(ok, "wtdmig: double-precision types (even mtype) use the D exponent", wd)
+        verdict, det, node = True, None, asg[0].node
+        for e in asg:
+            found = None
+            for t, pol in e.facts:
+                r = _symmetry_test(ctx, t, pol, E)
+                if r is not None:
+                    found = r if found is None or r[0] is not True else found
+                    if r[0] is True:
+                        found = r
+                        break
+            if found is None:
+                verdict, det = None, "no test of the matrix against its transpose dominates `form = 6`"
+            elif found[0] is False:
+                verdict, det = False, found[1]
+                node = found[2] if len(found) > 2 and found[2] is not None else node
+            elif found[0] is None and verdict is True:
+                verdict, det = None, found[1]
+        inst = ("wtdmig: a matrix is written as form 6 (half storage) only if it equals its plain transpose - the reader mirrors "
+                "without conjugation")
+        if verdict is None:
+            ctx.error(inst, node, det)
+        else:
+            ctx.check(verdict, inst, node, det)
+    # wtdmig: start row of the lower triangle
+    fors = [e for e in E.events("for")]
+    rows = [e for e in fors if len(e.loops) >= 3 and isinstance(e.d["iter"], tuple) and e.d["iter"][:1] == ("range",)]
+    ok, det = bool(rows), None
+    seen6 = seen_other = False
+    for e in rows:
+        outer = [f for f in fors if f.d["loop"] == e.loops[-2]]
+        col = outer[0].d["target"] if outer else None
+        it = e.d["iter"]
+        formv = None
+        for a in reversed([x for x in E.events("assign") if x.d["name"] == "form" and x.seq < e.seq and set(x.facts) <= set(e.facts)]):
+            formv = a.d["value"]
+            break
+        if formv == Lin(c=6):
+            seen6 = True
+            good = it[1] == col
+        else:
+            seen_other = True
+            good = it[1] == Lin()
+        mat = None
+        if outer and isinstance(outer[0].d["iter"], tuple) and outer[0].d["iter"][:1] == ("range",):
+            hi = outer[0].d["iter"][2]
+            at = the_atom(hi)
+            if isinstance(at, tuple) and at[0] == "dim" and at[2] == 1:
+                mat = at[1]
+        good = good and mat is not None and it[2] == lin(("len", mat)) and it[3] == Lin(c=1) and outer[0].d["iter"][1] == Lin()
+        if not good:
+            ok, det = False, {"form": show(formv), "rows": show(it), "column": show(col)}
+    ok = ok and seen6 and seen_other
+    ctx.check(ok, "wtdmig: form 6 writes rows col..n-1 of each column (one of each (i,j)/(j,i) pair)", rows[0].node if rows else wd, det)
+    # D exponent for the double-precision types
+    terms = [e for e in E.events("call") if is_write(e) and len(e.loops) >= 3 and isinstance(e.d["args"][0], S)]
+    ok, det = bool(terms), None
+    kinds = set()
+    for e in terms:
+        mt = None
+        for a in reversed([x for x in E.events("assign") if x.d["name"] == "mtype" and x.seq < e.seq and set(x.facts) <= set(e.facts)]):
+            mt = a.d["value"]
+            break
+        if not M.is_int_const(mt):
+            ok, det = False, f"matrix type {show(mt)}"
+            continue
+        k = M.ival(mt)
+        vals = [x for x in e.d["args"][0].p if x[0] == "fv" and not isinstance(x[2], Lin) and (x[1] or "").endswith("s") and _has_float(x[2])]
+        if len(vals) != 1:
+            ok, det = False, repr(e.d["args"][0])
+            continue
+        v = vals[0][2]
+        rep = isinstance(v, tuple) and v[:2] == ("op", ".replace") and len(v[2]) == 3 and v[2][1] == S((("lit", "E"),)) and v[2][2] == S((("lit", "D"),))
+        inner = v[2][0] if rep else v
+        specs = []
+        _float_specs(inner if isinstance(inner, S) else None, specs, None)
+        upperE = bool(specs) and all(sp.type == "E" for sp, *_ in specs)
+        nparts = len(specs)
+        good = (rep == (k % 2 == 0)) and upperE and nparts == (2 if k >= 3 else 1)
+        kinds.add(k)
+        if not good:
+            ok, det = False, {"mtype": k, "term": show(v)}
+    ok = ok and kinds == {1, 2, 3, 4}
+    ctx.check(ok, "wtdmig: double-precision types (even mtype) use the D exponent", terms[0].node if terms else wd, det)
+
+
+def _excludes(facts, x, k):
+    """the facts prove x != k"""
+    lo, hi = M.bounds(lin(x) - k, facts)
+    if (lo is not None and lo > 0) or (hi is not None and hi < 0):
+        return True
+    for t, pol in facts:
+        if isinstance(t, tuple) and t[:1] == ("cmp",) and set(t[2:]) == {lin(x), Lin(c=k)}:
+            if (t[1] == "Eq" and not pol) or (t[1] == "NotEq" and pol):
+                return True
+    return False
+
+
+def _has_float(v):
+    if isinstance(v, S):
+        out = []
+        _float_specs(v, out, None)
+        return bool(out)
+    if isinstance(v, tuple) and v[:2] == ("op", ".replace"):
+        return _has_float(v[2][0])
+    return False
+
+
+def _symmetry_test(ctx, t, pol, E, depth=0):
+    """does the fact (t, pol) say something about the symmetry of a matrix?
+       (True, ..)  it implies m == m.T (to the comparison's tolerance)
+       (False, why, node)  it is a comparison with the conjugate transpose, or a disjunction one arm of which does not compare with the transpose
+       (None, why)  a test this rule cannot decide;   None: not about symmetry"""
+    if not isinstance(t, tuple) or not t:
+        return None
+    if t[0] == "op" and t[1] in ("np.allclose", "np.array_equal", "np.isclose", "np.array_equiv") and len(t[2]) >= 2:
+        if not pol:
+            return None
+        a, b = _transpose_form(t[2][0]), _transpose_form(t[2][1])
+        if a[0] != b[0] or a[1] == b[1]:
+            return None
+        if a[2] == b[2]:
+            return (True, None)
+        return (False, sorted(show(x) for x in t[2][:2]), None)
+    if t[0] == "op" and t[1] in (".all",) and len(t[2]) == 1 and isinstance(t[2][0], tuple) and t[2][0][:2] == ("cmp", "Eq"):
+        if not pol:
+            return None
+        a, b = _transpose_form(t[2][0][2]), _transpose_form(t[2][0][3])
+        if a[0] == b[0] and a[1] != b[1]:
+            return (True, None) if a[2] == b[2] else (False, sorted(show(x) for x in t[2][0][2:4]), None)
+        return None
+    if t[0] == "op" and pol and isinstance(t[1], str) and depth < 2:
+        # a predicate of the package: follow its definition
+        name = t[1]
+        if name.startswith("ytools.") and len(t[2]) >= 1:
+            return _follow_predicate(ctx, YTOOLS, name.split(".", 1)[1], t, depth)
+    return None
+
+
+def _follow_predicate(ctx, rel, qual, t, depth):
+    if not ctx.src.has_func(rel, qual):
+        return (None, f"predicate {t[1]} cannot be resolved")
+    fn = ctx.src.func(rel, qual)
+    m = ctx.src.mod(rel)
+    params = [a.arg for a in fn.args.args]
+    env = {}
+    for nm, v in zip(params, t[2]):
+        env[nm] = v
+    for k, v in (t[3] if len(t) > 3 else ()):
+        env[k] = v
+    pos = fn.args.args
+    E0 = M.Engine(m, fn)
+    for p_, dv in zip(pos[len(pos) - len(fn.args.defaults):], fn.args.defaults):
+        if p_.arg not in env:
+            env[p_.arg] = E0.ev(dv, M.State())
+    try:
+        E2 = M.Engine(m, fn, params=env, follow=helpers_of(m))
+        E2.run()
+    except Unsupported as ex:
+        return (None, f"predicate {t[1]}: {ex}")
+    mat = t[2][0]
+    verdicts = []
+    for r in E2.events("return"):
+        v = r.d["value"]
+        if v == ("k", False):
+            continue
+        verdicts.append(_pred_value(ctx, v, mat, rel, depth + 1, r.node))
+    if not verdicts:
+        return (None, f"predicate {t[1]} never returns a truth value this rule understands")
+    for v in verdicts:
+        if v[0] is False:
+            return v
+    for v in verdicts:
+        if v[0] is None:
+            return v
+    return (True, None)
+
+
+def _pred_value(ctx, v, mat, rel, depth, node):
+    """a returned truth value: does `true` imply that mat equals its plain transpose?"""
+    if isinstance(v, tuple) and v and v[0] == "bool":
+        subs = [_pred_value(ctx, x, mat, rel, depth, node) for x in v[2]]
+        if v[1] == "and":
+            if any(s[0] is True for s in subs):
+                return (True, None)
+            if all(s[0] is False for s in subs):
+                return subs[0]
+            return (None, "conjunction without a transpose comparison")
+        # or: every arm must imply symmetry
+        for s, x in zip(subs, v[2]):
+            if s[0] is False:
+                return s
+        for s, x in zip(subs, v[2]):
+            if s[0] is None:
+                return s
+        return (True, None)
+    r = _symmetry_test(ctx, v, True, None, depth)
+    if r is not None:
+        return r if len(r) > 2 or r[0] is not False else (False, r[1], node)
+    if isinstance(v, tuple) and v and v[0] == "op" and isinstance(v[1], str) and not v[1].startswith(".") and "." not in v[1] and depth < 3:
+        # a function of the same module: does it look at the transpose at all?
+        if ctx.src.has_func(rel, v[1]):
+            sub = ctx.src.func(rel, v[1])
+            uses_t = any((isinstance(n, ast.Attribute) and n.attr in ("T", "transpose", "conj", "conjugate", "H")) or
+                         (isinstance(n, ast.Call) and (dotted(n.func) or "").split(".")[-1] in ("transpose", "swapaxes", "triu", "tril", "allclose", "array_equal"))
+                         for n in ast.walk(sub))
+            calls_out = [dotted(n.func) for n in ast.walk(sub) if isinstance(n, ast.Call) and dotted(n.func) and not (dotted(n.func) or "").startswith(("np.", "abs", "len", "max", "min"))]
+            if not uses_t and not calls_out and any(isinstance(n, ast.Compare) and isinstance(n.ops[0], (ast.Lt, ast.LtE, ast.Gt, ast.GtE)) for n in ast.walk(sub)):
+                return (False, {"accepted by": show(v), "why": f"`{v[1]}` passes a matrix whose off-diagonal terms are below a threshold relative to the diagonal without "
+                                                                "comparing it with its transpose: non-symmetric off-diagonal terms are written as half storage and "
+                                                                "come back mirrored"}, node)
+        return (None, f"predicate {show(v)}")
+    return (None, f"predicate {show(v)}")
+
+
+# ====================================================================================================================== R4
+def r4_sequence_coverage(ctx):
+    """writers that cut a sequence into lines / THRU items: every element is written exactly once, in order, and every template has as
+    many fields as it is given values"""
+    _nasints(ctx)
+    _thru(ctx, "wtset", "ids")
+    _thru(ctx, "_wt_with_thru", "seq")
+
+
+def _count_check(ctx, q, e, label):
+    """a `.format` event: number of replacement fields == number of values supplied, under the facts at the call"""
+    nf, na = e.d.get("nfields"), e.d.get("nargs")
+    inst = f"{q}: the {label} template has as many fields as it is given values"
+    if nf is None or na is None:
+        ctx.error(inst, e.node, "field / value count not derived")
+        return
+    d = nf - na
+    if M.proves_zero(d, e.facts):
+        ctx.ok(inst, e.node)
+        return
+    syms = M.free_symbols(d)
+    w = M.find_witness(syms, e.facts, lambda a: M.lin_eval(d, a) not in (None, 0), limit=36) if len(syms) <= 3 else None
+    if w is not None:
+        ctx.fail(inst, e.node, {"fields": show(nf), "values": show(na), "differ for": {show(k): v for k, v in w.items()},
+                                "consequence": "str.format silently drops surplus values (or raises IndexError when there are too few)"})
+    else:
+        ctx.error(inst, e.node, {"fields": show(nf), "values": show(na)})
+
+
+def _nasints(ctx):
+    q = "wtnasints"
+    fn = ctx.src.func(BULK, q)
+    E = engine(ctx, BULK, q)
+    ints = ("sym", "ints")
+    N = lin(("len", ints))
+    fm = [e for e in E.events("format") if e.d.get("items") is not None]
+    by_node = {}
+    for e in fm:
+        by_node.setdefault(id(e.node), []).append(e)
+    if len(by_node) < 2:
+        raise AnchorError("wtnasints: formatted writes")
+    labels = {}
+    for evs in by_node.values():
+        e = evs[0]
+        star = [a for a in e.d["args"] if isinstance(a, tuple) and a[:1] == ("star",)]
+        sl = star[0][1] if star else None
+        if isinstance(sl, tuple) and sl[:1] == ("slice",) and sl[2] == Lin() and not e.loops:
+            label = "first-line"
+        elif e.loops:
+            label = "full continuation line"
+        elif isinstance(sl, tuple) and sl[:1] == ("slice",):
+            label = "last-line"
+        else:
+            label = "single-line"
+        k = 2
+        base = label
+        while label in labels.values():
+            label = f"{base} #{k}"
+            k += 1
+        labels[id(e.node)] = label
+    for nid, evs in by_node.items():
+        for e in evs[:1]:
+            pass
+        # all paths through the same call
+        worst = None
+        for e in evs:
+            nf, na = e.d.get("nfields"), e.d.get("nargs")
+            if nf is None or na is None or not M.proves_zero(nf - na, e.facts):
+                worst = e
+                break
+        _count_check(ctx, q, worst or evs[0], labels[nid])
+    # line capacity: a continuation line holds the blank head + at most 8 integers, the first line at most 10 - start
+    start = lin(("sym", "start"))
+    okc, det, node = True, None, fn
+    for e in fm:
+        items = e.d["items"]
+        nints = M.count_fields([it for it in items if not (it[0] == "field" and it[1] is not None and it[1].type == "s")])
+        heads = [it for it in items if it[0] == "field" and it[1] is not None and it[1].type == "s"]
+        widths_ok = all(it[1] is not None and it[1].width == 8 for it in _all_fields(items))
+        text = "".join(it[1] for it in items if it[0] == "text")
+        cap = Lin(c=8) if heads else (Lin(c=10) - start)
+        if nints is None or not widths_ok or text != "\n" or len(heads) > 1 or (heads and items[0] is not heads[0]):
+            okc, det, node = False, {"template": repr(e.d["template"])}, e.node
+            continue
+        if not M.proves_ge0(cap - nints, e.facts):
+            okc, node = False, e.node
+            det = {"integers on the line": show(nints), "capacity": show(cap)}
+    ctx.check(okc, "wtnasints: every line is made of 8-column fields, the first holds at most 10 - start integers, a continuation line a blank head + at most 8", node, det)
+    # tiling: the slices written follow each other and start at 0
+    _tiling(ctx, E, q, ints, fn)
+
+
+def _all_fields(items):
+    for it in items:
+        if it[0] == "field":
+            yield it
+        elif it[0] == "rep":
+            yield from _all_fields(it[1])
+
+
+def _tiling(ctx, E, q, seq, fn):
+    """each path writes consecutive slices seq[a:b] whose bounds chain: first a = 0, next a = previous b (through loops by induction on the
+    loop counter)"""
+    N = lin(("len", seq))
+    ok, det, node = True, None, fn
+    npaths = 0
+    for s in E.finals:
+        if s.status not in ("run", "return"):
+            continue
+        npaths += 1
+        wp = Lin()          # written up to (exclusive)
+        loop_entry = {}
+        for e in s.events:
+            if e.kind == "while":
+                # induction hypothesis: at the head of the loop the counter equals the position written so far
+                cnt = [nm for nm, v in e.d["pre"].items() if isinstance(v, Lin) and v == wp]
+                if cnt:
+                    loop_entry[e.d["loop"]] = cnt[0]
+                    wp = lin(e.d["env"][cnt[0]])
+            elif e.kind == "loopend" and e.d["loop"] in loop_entry:
+                nm = loop_entry[e.d["loop"]]
+                if lin(e.d["env"][nm]) != wp:
+                    ok, node = False, e.node
+                    det = {"loop counter after one pass": show(e.d["env"][nm]), "written up to": show(wp)}
+            elif e.kind == "loopexit" and e.d["loop"] in loop_entry:
+                wp = lin(e.d["env"][loop_entry[e.d["loop"]]])
+            elif e.kind == "format" and e.d.get("items") is not None:
+                star = [a for a in e.d["args"] if isinstance(a, tuple) and a[:1] == ("star",)]
+                if not star:
+                    continue
+                v = star[0][1]
+                if v == seq:
+                    a, b = Lin(), N
+                elif isinstance(v, tuple) and v[:1] == ("slice",) and M.origin(v[1]) == seq and v[4] == Lin(c=1):
+                    a = lin(v[2])
+                    b = N if v[3] == ("k", None) else M.mk_min([lin(v[3]), N], e.facts)
+                else:
+                    ok, det, node = False, {"values written": show(v)}, e.node
+                    continue
+                if a != wp:
+                    ok, node = False, e.node
+                    det = {"slice starts at": show(a), "written up to": show(wp)}
+                wp = b
+        # a path that stops early must have nothing left:  facts imply wp >= N
+        if wp != N:
+            lo, hi = M.bounds(wp - N, s.facts)
+            if not (lo is not None and lo >= 0):
+                syms = M.free_symbols(wp - N)
+                w = M.find_witness(syms, s.facts, lambda a_: (M.lin_eval(wp - N, a_) is not None and M.lin_eval(wp - N, a_) < 0), limit=30) if len(syms) <= 3 else None
+                # havoc symbols over-approximate the loop: only report when no loop symbol is involved
+                if w is not None and not any("@" in show(k) for k in w):
+                    ok, node = False, fn
+                    det = {"written up to": show(wp), "length": show(N), "elements left for": {show(k): v for k, v in w.items()}}
+    ctx.check(ok and npaths > 0, f"{q}: the slices written follow each other without gap or overlap, starting at element 0", node, det)
+
+
+def _thru(ctx, q, seqname):
+    """THRU compression loop: each pass emits the run [start, end] (or the single element start) and advances `start` past what it emitted"""
+    fn = ctx.src.func(BULK, q)
+    E = engine(ctx, BULK, q)
+    seq = ("sym", seqname)
+    whiles = [e for e in E.events("while")]
+    if not whiles:
+        raise AnchorError(f"{q}: item loop")
+    ok, det, node = True, None, whiles[0].node
+    npass = 0
+    runs = singles = 0
+    for s_end in E.events("loopend"):
+        lid = s_end.d["loop"]
+        w = [e for e in whiles if e.d["loop"] == lid]
+        if not w or len(s_end.loops) != 1:
+            continue
+        w = w[0]
+        # the cursor: the loop variable that indexes the sequence
+        body = [e for e in E.events() if lid in e.loops and e.seq < s_end.seq and set(e.facts) <= set(s_end.facts)]
+        emitted = []
+        for e in body:
+            vals = []
+            if e.kind == "call" and e.d["attr"] in ("append", "extend"):
+                for a in e.d["args"]:
+                    vals.extend(_seq_elems(a, seq))
+            if vals:
+                emitted.append((e, vals))
+        if not emitted:
+            continue
+        npass += 1
+        idxs = [i for _, vs in emitted for i in vs]
+        first, last = idxs[0], idxs[-1]
+        thru = any(_has_thru(a) for e, _ in emitted for a in e.d["args"])
+        cursor = [nm for nm, v in w.d["env"].items() if lin(v) == first]
+        if not cursor:
+            ok, det, node = False, {"first element written": show(first)}, emitted[0][0].node
+            continue
+        nm = cursor[0]
+        new = lin(s_end.d["env"][nm])
+        covered_to = last if (thru or len(idxs) > 1) else first
+        if thru:
+            runs += 1
+        else:
+            singles += 1
+        want = covered_to + 1
+        d = new - want
+        if not M.proves_zero(d, s_end.facts):
+            syms = M.free_symbols(d)
+            wit = M.find_witness(syms, s_end.facts, lambda a_: M.lin_eval(d, a_) not in (None, 0), limit=12) if len(syms) <= 3 else None
+            if wit is not None:
+                ok, node = False, emitted[-1][0].node
+                det = {"written": f"{show(first)}" + (f" THRU {show(last)}" if thru else ""), "cursor advanced to": show(new), "should be": show(want),
+                       "differ for": {show(k): v for k, v in wit.items()}, "consequence": "elements between are never written" if True else ""}
+            else:
+                ctx.error(f"{q}: cursor update", s_end.node, {"cursor advanced to": show(new), "should be": show(want)})
+        if thru and first == last:
+            ok, det = False, {"THRU item": show(first)}
+    ok = ok and runs >= 1 and singles >= 1
+    ctx.check(ok, f"{q}: each pass writes ids[start] (or ids[start] THRU ids[end]) and moves the cursor just past what it wrote, so no id is skipped or repeated", node, det)
+
+
+def _seq_elems(v, seq):
+    """indices of the elements of `seq` a value contains, in order"""
+    out = []
+    if isinstance(v, S):
+        for x in v.p:
+            if x[0] == "fv":
+                out.extend(_seq_elems(x[2], seq))
+    elif isinstance(v, tuple) and v:
+        if v[0] == "elem" and M.origin(v[1]) == seq and not (isinstance(v[2], tuple) and v[2][:1] in (("tuple",), ("sl",))):
+            out.append(lin(v[2]))
+        elif v[0] == "tuple":
+            for x in v[1]:
+                out.extend(_seq_elems(x, seq))
+    return out
+
+
+def _has_thru(v):
+    if isinstance(v, S):
+        return any(x[0] == "lit" and "THRU" in x[1] for x in v.p)
+    if isinstance(v, tuple) and v and v[0] == "tuple":
+        return any(_has_thru(x) for x in v[1])
+    return False
 
 
 RULES = [
-    ("C13-R1", r1_templates, 27),
+    ("C13-R1", r1_templates, 31),
     ("C13-R2", r2_nonempty_vector, 4),
     ("C13-R3", r3_reader_strides, 8),
+    ("C13-R4", r4_sequence_coverage, 7),
 ]
 LEVEL = "other"
 EXPLANATION = ("Static: every hard-wired or default floating-point format in the bulk writers is checked to fit its field over all finite doubles "
                "(E5 width bound); wttabled1/wtgrids line templates obey the 8 + n*W card grid and the leftover arithmetic keeps ENDT on the card; "
                "vectorised writes that can receive an empty vector are guarded (derived from vecwrite's own summary); typed readers index the fields "
-               "the writers fill; the DMIG half-storage test matches the reader's mirror.")
+               "the writers fill; the DMIG half-storage test matches the reader's mirror; list writers (wtnasints, wtset, _wt_with_thru) emit every "
+               "element exactly once and give every template as many values as it has fields.  All rules are decided on symbolic values "
+               "(templates, linear integer forms, path facts), not on source text.")
 MANIFEST = {
     "text": "Partial claim decided statically: (R1) width of every floating-point spec over the whole double range, card-grid arithmetic of wttabled1/wtgrids "
             "templates, leftover-pair range; (R2) non-empty-vector contract of writer.vecwrite at its call sites; (R3) reader strides vs writer layout, DMIG "
-            "symmetry test vs reader mirror, form-6 start row, D exponent. Known findings (default/hard-wired formats narrower than the value domain) are "
-            "listed in known_findings.json. Not decided: THRU compression on arbitrary id lists, DMIG index ordering on data, precision of values, "
+            "symmetry test vs reader mirror, form-6 start row, D exponent; (R4) wtnasints line wrapping (field count = value count, capacity, consecutive slices) "
+            "and the THRU cursor of wtset/_wt_with_thru. Known findings (default/hard-wired formats narrower than the value domain) are "
+            "listed in known_findings.json. Not decided: run detection of _find_sequence on data, DMIG index ordering on data, precision of values, "
             "uset2bulk/bulk2uset coordinate chains.",
     "note": "Trusted: CPython ast; Python format-spec semantics ('E' exponents have at least two digits and three below 1e-99/above 1e+99).",
-    "technique": "static format-width abstract interpretation + card-template arithmetic + call-site dominance rules derived from the callee's summary",
+    "technique": "symbolic evaluation of string templates and integer extents with path facts + format-width abstract interpretation + call-site "
+                 "contracts derived from the callee's summary",
 }
